@@ -94,6 +94,37 @@ def run(ctx):
                         continue
                     lines.append(json.dumps({"e": "Opt", "tag": "w%d" % i, "tool": tool, "opt": opt, "cls": cls, "expectwarn": expectwarn,
                                              "diags": d1, "rc": rc1 if -1 < rc1 < 1000 else 999, "plainrc": rc0, "optname": opt + " " + cls}))
+    # ---- the same options on inputs with an ERROR fault; class names = every named entry of the message table
+    names = sorted({cls for _, _, _, cls, _ in tbl if cls})
+    named_code = {name: cls for name, _, _, cls, _ in tbl if cls}
+    nfault = 0
+    fjobs = []
+    for tag, path, expect, m, c in ins:
+        own = named_code.get(m["code"])
+        pick = names if (own and not ctx.quick) else ([own] if own else (names[:2] if not ctx.quick else []))
+        for cls in pick:
+            for opt in ("-i", "-w"):
+                fjobs.append((tag, path, m, cls, opt))
+
+    def fone(j):
+        tag, path, m, cls, opt = j
+        base = ["-w", "all"] if m["class"] == "argcount" else []
+        rc1, err1, _ = fc.run_tool(bdir, "check-express", path, os.path.join(wd, "run", "f%s_%s_%s" % (tag, opt[1], cls)), base + [opt, cls])
+        return j, rc1, err1
+    fres = {}
+    with cf.ThreadPoolExecutor(max_workers=14) as ex:
+        for j, rc1, err1 in ex.map(fone, fjobs):
+            fres[(j[0], j[3], j[4])] = (rc1, err1)
+    slim = lambda ds: [{"sev": x["sev"], "cls": x["cls"], "code": x["code"], "line": x["line"], "msg": x["msg"][:100]} for x in ds]
+    for j in fjobs:
+        tag, path, m, cls, opt = j
+        rc0, ds0, err0 = res[(tag, "check-express")]
+        rc1, err1 = fres[(tag, cls, opt)]
+        lines.append(json.dumps({"e": "Plain", "tag": tag, "tool": "check-express", "diags": slim(ds0), "rc": rc0}))
+        lines.append(json.dumps({"e": "OptFault", "tag": tag, "tool": "check-express", "opt": opt, "cls": cls, "optname": opt + " " + cls,
+                                 "mclass": m["class"], "refused": "usage:" in err1 and "unknown warning" in err1,
+                                 "diags": slim(diag.parse(err1, tbl)), "rc": rc1 if -1 < rc1 < 1000 else 999, "plainrc": rc0}))
+        nfault += 1
     got = fc.validate(ctx, lines, wd)
     byin = {t: (p, m, c) for t, p, e, m, c in ins}
     for rep in got:
@@ -106,13 +137,13 @@ def run(ctx):
                 rep["what"], ev["tool"], m["class"], m["lexeme"], m["code"], "; ".join(d["msg"] for d in ev["diags"])[:300]),
                 {"mutant": m, "input": open(path, encoding="latin-1").read(), "event": ev})
         else:
-            ctx.violation("%s|%s|%s" % (rep["what"], ev.get("optname"), ev.get("tool")),
+            ctx.violation("%s|%s|%s%s" % (rep["what"], ev.get("optname"), ev.get("tool"), "|" + ev["mclass"] if ev["e"] == "OptFault" else ""),
                           "%s with option %s (%s): rc %s vs plain %s, %d diagnostics" % (
                               rep["what"], ev.get("optname"), ev.get("tool"), ev.get("rc"), ev.get("plainrc"), len(ev.get("diags", []))),
                           {"event": ev})
     shutil.rmtree(wd, ignore_errors=True)
     cov.update({"states": g.distinct, "transitions": g.generated, "traces_validated_against_impl": len(jobs) + nopt,
-                "exhaustive": True, "mutant_runs": len(jobs), "option_runs": nopt, "disagreeing_events": len(got),
+                "exhaustive": True, "mutant_runs": len(jobs), "option_runs": nopt, "option_runs_on_faulty_inputs": nfault, "disagreeing_events": len(got),
                 "samples": [json.loads(lines[1]), json.loads(lines[-1])],
                 "evaluations": len(jobs) + nopt, "distinct_nontrivial": len(ins) + nopt,
                 "rule": "every mutant (with its offending lexeme and expected diagnostic family) x tools; warning-bearing "
